@@ -82,9 +82,12 @@ CHECKS = {
              "read_operations_since_from_file - the real binary search, look-back and linear scan, with inductive invariants - returns every (database, key) "
              "that has a record at or after the timestamp, each labelled with the time / db / key / kind of its most recent record, leaves other entries alone, "
              "and never underflows or reads out of bounds; Oplog::last_op_time is the newest record's timestamp (0 for an empty log); Oplog::write_op_log "
-             "appends exactly one record and decoding it gives the fields back (round-trip lemma). Kani: ReplicateOpp to_u8/from over all 256 bytes.",
-        level_note="Trusted file model (see evidence). Rotation / remove_old_db_files, the directory loop of read_operations_since, termination of the search "
-                   "loop, and the writer-side facts 'timestamps never go back' and 'whole records' (preconditions) are NOT decided.",
+             "appends exactly one record and decoding it gives the fields back (round-trip lemma). read_operations_since (the real loop over the rotated files, oldest "
+             "first, then the live file; loop invariant `folded`) returns, for any number of files, every pair with a record at or after the timestamp in any file, labelled "
+             "with its record in the newest file that mentions it - with the files in time order that is its most recent record (lemma_most_recent_wins). "
+             "Kani: ReplicateOpp to_u8/from over all 256 bytes.",
+        level_note="Trusted file and directory model (see evidence). Rotation itself (rename in get_log_file_append_mode) and remove_old_db_files, termination of the search "
+                   "loop, and the writer-side facts 'timestamps never go back', 'whole records', 'files in time order' (preconditions / lemma hypothesis) are NOT decided.",
     ),
     "C13": dict(
         engine="verus-units", design_ref="DESIGN.md §5 C13", technique="deductive verification (Verus/Z3) of function contracts on extracted real code",
